@@ -22,7 +22,7 @@ func checkC16(r *Run) {
 	userFunctionCallRule(r)
 	coreBlockRules(r, "", "R3")
 	exitEscapesRule(r, "R4")
-	loopReturnRule(r, "R5")
+	loopReturnRuleSSA(r, "R5")
 	firstClassRule(r, "R6")
 	coreReturnRule(r, "R7")
 }
